@@ -23,7 +23,23 @@ NTS = ["S", "A", "B", "C", "D"]
 IDX = ["f", "g"]
 
 
+def gen_chain(rng):
+    """a chain of production rules whose indices are (mostly) never consumed, used twice by a duplication"""
+    k = rng.randint(1, 3)
+    names = ["A", "B", "C", "D"][:k + 1]
+    rules = [["dup", "S", names[0], rng.choice(names)]] if rng.random() < 0.7 else [["prod", "S", names[0], "f"]]
+    for i in range(k):
+        rules.append(["prod", names[i], names[i + 1], rng.choice(IDX)])
+    rules.append(["end", names[k], rng.choice(["a", "b"])])
+    if rng.random() < 0.4:
+        rules.append(["cons", rng.choice(IDX), rng.choice(names), rng.choice(names)])
+    rng.shuffle(rules)
+    return {"rules": rules, "start": "S"}
+
+
 def gen_ig(rng):
+    if rng.random() < 0.3:
+        return gen_chain(rng)
     nts = NTS[:rng.randint(2, 5)]
     idx = IDX[:rng.randint(1, 2)]
     rules = []
@@ -117,12 +133,15 @@ def run_case(case, drv):
     truth = M["isEmpty"]
     res.tag("empty_%s" % truth)
     rng = random.Random(case["pseed"])
-    perms = list(itertools.permutations(range(len(rules)))) if len(rules) <= (5 if case.get("tier") == "thorough" else 3) \
-        else [tuple(rng.sample(range(len(rules)), len(rules))) for _ in range(8)]
-    if len(perms) > 120:
-        perms = rng.sample(perms, 120)
-    for perm in perms:
-        for optim in ([0, 7, rng.randrange(9)] if case.get("tier") != "thorough" else range(9)):
+    thorough = case.get("tier") == "thorough"
+    if len(rules) <= 5:
+        perms = list(itertools.permutations(range(len(rules))))
+    else:
+        perms = [tuple(rng.sample(range(len(rules)), len(rules))) for _ in range(120 if thorough else 24)]
+    heavy = set(rng.sample(range(len(perms)), min(len(perms), 24 if thorough else 6)))
+    for pi, perm in enumerate(perms):
+        # the listed order is what optim 0 visits; the other heuristics are sampled
+        for optim in (range(9) if pi in heavy else [0]):
             def run():
                 g = IndexedGrammar(Rules([mk_rule(rules[i]) for i in perm], optim), spec["start"])
                 return g.is_empty(), g
